@@ -6,17 +6,21 @@ COMPONENTS = {
         "accessors": {
             "internal/cluster/xv_acc_verif.go": "acc/cluster/xv_acc_verif.go",
             "internal/cluster/xv_view_verif.go": "acc/cluster/xv_view_verif.go",
+            "internal/cluster/xv_viewwire_verif.go": "acc/cluster/xv_viewwire_verif.go",
         },
         "env": {"XV_C17_FINDINGS": "1"},   # the recorded finding (cap truncation lowers a member's vector entry) is raised as a monitor (matched by known_findings.json)
         "what": ("cluster.ClusterView / NodeState: IsNewerThan, AddMember, RemoveMember, IncrementVersion, in-place status change, "
                  "recomputeCounts, Snapshot, MergeFromWithOptions (3 strategies, skew off/far/near; `changed` compares the merged vector with the "
-                 "vector before the prune) vs Cluster/View.v"),
+                 "vector before the prune) vs Cluster/View.v; the COMPLETE values (all 13 NodeState fields, ViewID, nil Members map, nil entries) "
+                 "through Clone / AddMember / MergeFromWithOptions / Snapshot vs Cluster/ViewFull.v run on the pointer-level model Cluster/ViewHeap.v, "
+                 "including who shares which Go object afterwards"),
     },
 }
 
 PROPERTIES = {
     "C17": {
         "components": ["view"],
+        "coq_files": ["Properties/C17.v", "Properties/C17_ext.v"],
         "rule": ("every operation runs on the real ClusterView; the view is dumped before and after (members id -> id, address, generation, "
                  "timestamp, seqno, status, logical clock, last-seen; epoch; view timestamp; protocol version; counts; version vector; changed) "
                  "and compared with the model. exhaustive: 100 views over ids {a,b} (per id absent|(1,1,Up)|(1,1,Suspect)|(1,2,Up)|(2,1,Up), "
@@ -31,11 +35,25 @@ PROPERTIES = {
                  "no regression / newest incarnation (well-formed views), epoch not lowered, no member's vector entry lowered (member count within the cap), "
                  "changed-unsound = members or any vector counter differ although changed=false - unguarded, it covers non-member vector keys and cap "
                  "truncation (regression of 53b1085: the replayed witnesses RemoveMember(b);IncrementVersion(b);merge and MaxVersionVectorEntries=1 "
-                 "fire it on the code before that commit)"),
+                 "fire it on the code before that commit). "
+                 "complete values (kinds full-*): operands are rebuilt as fully unshared copies (every state and every non-nil map, empty ones too, a "
+                 "new object), the operation runs, and the case is (complete dump of the operands incl. ClusterName, Unreachable, Metadata, Labels, "
+                 "Checksum, ViewID, nil map, nil entries) -> (complete dump of the result, changed, and per member the triple same-object / "
+                 "same-Metadata-map / same-Labels-map against its source, by Go pointer identity); the model loads the operands into an empty heap and "
+                 "runs h_merge / h_add / h_snapshot / h_clone. exhaustive: every shape of the two maps (nil | empty | 1 entry | 3 entries)^2 through "
+                 "Clone, AddMember, merge into an empty view, Snapshot; random: views over ids {a,b,c}, incarnations (1..2,1..2), 5 statuses, all map "
+                 "shapes, every third round with nil entries and (1/10) a nil Members map; merge both ways and with itself, 3 strategies x 3 skew "
+                 "settings. monitors on these: operand-modified (complete dump), member-fabricated = a stored state that is field for field neither "
+                 "the old one nor the argument's / a new nil entry / a changed ViewID / Clone not a field-for-field copy, member-removed, "
+                 "member-missing, aliasing = a shared *NodeState or a shared NON-EMPTY map; a shared EMPTY map is no monitor: it is the report-only "
+                 "observation clone-shares-empty-map (it refutes the mechanism 'stored states are clones' for empty maps, not the property; the Coq witness "
+                 "is replayed on every run and whether it still reproduces is recorded in the report's info.observations)"),
         "modelled_not_verified": [
-            "Go map[string]*NodeState = finite map without nil entries; map iteration order is irrelevant to every modelled result (each key is visited once and only touches its own key)",
-            "Clone / Snapshot are the identity in the functional model: 'stored states are clones' and 'the argument view is never modified' are decided on the implementation only (pointer and Labels-map identity, mutation of snapshots, operand dumps around every call)",
-            "ClusterName, Unreachable, Metadata, Labels, Checksum, ViewID are payload not read by any modelled function and are not modelled",
+            "Go map[string]*NodeState = finite map (core model: without nil entries; complete model ViewFull.v: option-valued, nil entries and the nil map included); map iteration order is irrelevant to every modelled result (each key is visited once and only touches its own key): the pointer-level loop decides every key on the heap the loop started with and folds over the entries in map_to_list order",
+            "pointer level (ViewHeap.v): a heap of NodeState objects and map[string]string objects with an allocation counter; the Members map object and the VersionVector map are owned by one view and modelled by value (VersionVector aliasing is C16's); base fields (epoch, counts, vector, ...) of the pointer-level operations are computed by the value-level operation on what the views denote - the pointer-level content is which object each entry points to",
+            "garbage collection, goroutines: the heap only grows and the operations are sequential (ClusterView is confined to its actor); 'fresh' = at or above the allocation counter",
+            "the complete-value harness rebuilds its operands as fully unshared copies before each operation, as the model's loader does; views that already share empty maps before an operation (possible in the running system, see the observation clone-shares-empty-map) are outside the differential cases but inside the theorems (vsep is a hypothesis)",
+            "wire cases: the byte-level model is C12's Codec/ClusterMsgs.v (enc_view / dec_view); C17 adds the field-by-field conversions to_wire / of_wire and compares readClusterView(writeClusterView(o)) with of_wire(dec_view(enc_view(to_wire o))) on complete dumps",
             "Generation (int) and LogicalClock (uint64) are unbounded in the model: wrap-around after 2^63 / 2^64 restarts is outside it; the int64 arithmetic of the clock-skew test IS modelled with wrap-around",
             "time.Now() in MergeFromWithOptions is the parameter `now`; the harness passes a nominal clock and places every view timestamp so that the skew branch is the same for any real clock within 10 years of it (checked at start-up)",
             "the restart bump of tryJoinSeeds is inline in an actor handler: the harness transcribes its 9 lines around the real AddMember (the real handler is driven by C18's harness)",
@@ -48,7 +66,7 @@ PROPERTIES = {
 
 META = {
     "C17": {
-        "text": ("24 kernel-checked theorems about the Gallina model of ClusterView/NodeState. For all well-formed views (keys = state ids, generation >= 1, "
+        "text": ("68 kernel-checked theorems (Properties/C17.v 24, Properties/C17_ext.v 44: part 2 configurations 20, part 3 complete values and pointers 21, part 4 wire 3) about the Gallina models of ClusterView/NodeState. For all well-formed views (keys = state ids, generation >= 1, "
                  "logical clock >= 1 - proved invariant of newNodeState, AddMember, RemoveMember, IncrementVersion, status changes, the restart bump, Snapshot "
                  "and merges): the membership (id -> generation, logical clock) of a merge is the pointwise lexicographic maximum, hence commutative, associative, "
                  "idempotent, and ANY merge expression (any order, tree shape, strategy, skew, clock per merge) over the same views yields the same membership = "
@@ -63,12 +81,41 @@ META = {
                  "MaxVersionVectorEntries=1 with two members), replayed on the real code on every run and reported as known finding C17-vv-cap-truncation. A vector "
                  "key that is no member is dropped by the prune; that lowers no member's entry and is reported by changed. Also refuted with reachable witnesses: "
                  "commutativity on full member states (same incarnation, different Status), IsNewerThan transitivity without well-formedness (3-cycle with a "
-                 "logical clock of 0), no-regression without well-formedness."),
+                 "logical clock of 0), no-regression without well-formedness. "
+                 "CONFIGURATIONS (C17_ext.v part 2): for every strategy / skew / clock the epoch and view timestamp of a merge are exactly 'max if adopts else "
+                 "unchanged' with adopts = not skipped by the skew test and not (vectors concurrent and PreferLocal) (C17_epoch_exact, "
+                 "C17_adopts_per_strategy); PreferRemote and every out-of-range strategy value ARE TakeMax, result and flag (C17_strategy_collapse - it does "
+                 "not force-adopt a lower epoch, which keeps 'never lowers the epoch' true); PreferLocal is TakeMax unless the vectors are concurrent; no "
+                 "configuration influences the complete member states, the vector, the counts, the protocol version (C17_config_independent), and "
+                 "`changed` depends on it only through epoch/timestamp. Order (in)sensitivity of the epoch per configuration: for every configuration it lies "
+                 "between the epoch of the receiving view and the maximum and is some view's epoch; for TakeMax-like strategies without skew over views that have "
+                 "members it IS the maximum for any order and tree shape (C17_epoch_any_order_takemax_noskew); refuted with well-formed witnesses for "
+                 "PreferLocal, for the skew test, and for a member-less view. The skew test is 0 < skew < |now - ts| absent int64 overflow "
+                 "(C17_skew_test_exact) and wraps otherwise (witness). IsNewerThan on well-formed states of one node is a strict weak order: trichotomy "
+                 "with 'same incarnation' as indifference, negative transitivity; across ids it cycles even on well-formed states (witness). After a merge "
+                 "healthy = |Up members|, healthy+unhealthy = |members|, quorum = healthy/2+1 is a strict majority of the healthy (C17_counts_after_merge). "
+                 "COMPLETE VALUES (C17_ext.v part 3, ViewFull.v): all 13 NodeState fields, ViewID, nil Members map, nil entries; erase (non-nil entries, core "
+                 "fields) commutes with merge (argument without nil entries), AddMember, RemoveMember, Snapshot, recomputeCounts, so every theorem above "
+                 "speaks about the complete ClusterView; a merge moves complete states only (each stored state is field for field the old one or the "
+                 "argument's), keeps every entry, creates no nil entry, keeps ViewID; order-insensitivity and no-regression restated for complete views. "
+                 "POINTERS (ViewHeap.v): Clone / MergeFromWithOptions / AddMember / Snapshot on a heap of NodeState and map objects compute the "
+                 "value-level operations (C17_ptr_*_refines), only allocate (hence never modify the argument view, the caller's state or any other view - "
+                 "C17_ptr_merge_frame), store fresh state objects, and after them the views share nothing but EMPTY maps "
+                 "(C17_stored_states_are_clones_partial, C17_snapshot_is_deep_copy_partial, C17_add_member_stores_clone_partial); with no empty non-nil map "
+                 "in the argument the views are independent under later writes (C17_merge_independent_partial). The exception is real: newNodeState makes "
+                 "both maps empty and non-nil, Clone copies only the header of an empty map, so the stored clone shares them with its source "
+                 "(C17_clone_shares_empty_map_refuted, kernel-checked witness, replayed on the real code on every run). This refutes the MECHANISM "
+                 "'stored states are clones' for empty maps, NOT the property: C17's statement speaks of membership, incarnations, epoch, vector "
+                 "entries and `changed`, and no operation in its quantifier writes a state's maps after the state entered a view; it is a report-only "
+                 "observation (info.observations.clone-shares-empty-map in the evidence), no monitor, no known finding. "
+                 "WIRE (C17_ext.v part 4, ViewWire.v on C12's Codec/ClusterMsgs.v): under wire_ok (lengths < 2^32, Generation/Status/counts/"
+                 "MaxVersionVectorEntries within int32, non-nil Members without nil entries, no empty non-nil map) readClusterView(writeClusterView(o)) "
+                 "is o, so merging what came off the wire is merging the sender's view (C17_merge_commutes_with_wire)."),
         "design_ref": "DESIGN.md §4 C17",
         "note": ("Trusted: Coq kernel + vm_compute; ExtrOcamlBasic extraction (cross-checked by vm_compute on a sample each run); the harness; Go maps as finite "
-                 "maps. Clone/aliasing and operand immutability are decided on the implementation only. The clause 'never lowers a member's version-vector entry' "
+                 "maps; the heap model of Go objects (locations, allocation counter, no GC). Clone/aliasing and operand immutability are now proved on the pointer-level model AND decided on the implementation (pointer identity of states and maps compared with the model's prediction on every complete-value case). The clause 'never lowers a member's version-vector entry' "
                  "holds only under the stated guard; the guard violation is reachable by configuration (MaxVersionVectorEntries < members) and is a recorded, "
-                 "unrepaired finding. The clause 'changed is sound' holds unguarded since commit 53b1085."),
-        "technique": "Coq proof (finite-map extensionality, induction over merge expressions and reachability) over a hand-written model + differential correspondence check against the Go code + implementation-side monitors",
+                 "unrepaired finding. The clause 'changed is sound' holds unguarded since commit 53b1085. The mechanism 'stored states are clones' holds except for empty non-nil maps: a report-only observation, not a violation of the property (it cannot affect membership, incarnations, epoch or vectors; only user code writing a state's maps after the state entered a view could notice)."),
+        "technique": "Coq proof (finite-map extensionality, induction over merge expressions and reachability, simulation between the complete and the core model, heap-extension invariants for the pointer-level model) over a hand-written model + differential correspondence check against the Go code + implementation-side monitors",
     },
 }
